@@ -18,7 +18,7 @@ META: Dict[str, Any] = {
     "level": "exploration",
     "pools": [{"backend": "c"}, {"backend": "py"}, {"backend": "c", "optimize": 1}],
     "tiers": {
-        "quick": {"runs": 60000, "chunk": 250, "wall": 60, "chunk_wall": 300},
+        "quick": {"runs": 60000, "chunk": 250, "wall": 200, "chunk_wall": 300},
         "thorough": {"runs": 600000, "chunk": 300, "wall": 900, "chunk_wall": 600},
     },
     "selftest_runs": 5,
